@@ -19,7 +19,7 @@ if __name__ == "__main__":
     _reexec()
     sys.path[:] = [p for p in sys.path if os.path.abspath(p or ".") != HERE]
     sys.path.insert(0, ROOT)
-    sys.path.insert(0, "/repo")
+    sys.path.insert(0, os.path.abspath(os.environ.get("RLSIM_REPO", "/repo")))
     from rlsim.runner import main
 
     sys.exit(main())
